@@ -125,12 +125,10 @@ Definition corner_of (h : Q) (order : Z) : Z :=
 Definition half_at (m : fmesh) (v : Z) : Q := znth (f_half m) v 0%Q.
 
 (* None when flag_corners is off (self.corners stays None) *)
-Definition corners_with (hshift : Q) (m : fmesh) (o : fopts) : option (list (Z * Z)) :=
+Definition corners (m : fmesh) (o : fopts) : option (list (Z * Z)) :=
   if o_flag_corners o then
-    Some (map (fun v => (v, corner_of (half_at m v + hshift)%Q (o_corner_order o))) (feature_vertices m o))
+    Some (map (fun v => (v, corner_of (half_at m v) (o_corner_order o))) (feature_vertices m o))
   else None.
-
-Definition corners (m : fmesh) (o : fopts) := corners_with 0 m o.
 
 (* ------------------------------------------------------------------ well-formedness of the tables *)
 Definition wf_edge_f (m : fmesh) (e : Z) : bool :=
